@@ -39,6 +39,27 @@ def member_seek_rule(repo: Repo, rep: Report, rid: str) -> None:
         norm(priv[0].value.args[0].args[0]) == "cls.size"
     rep.check(ok, rid, f"{fi.key}:private-buffer", "fixed-size union: BytesIO(stream.read(cls.size))",
               "fixed-size unions no longer consume exactly cls.size bytes into a private buffer", fi.loc())
+    # the offset a member is read at is computed for that member: every definition of a local used in the seek argument that reaches the seek was
+    # made in the same iteration (a value carried over from the previous member would place this member at the other member's offset)
+    from ..cfg import ReachingDefs
+
+    rdefs = ReachingDefs(g, fi.params)
+    in_loop = g.reachable(lp.id, first_edge="loop", avoid={lp.id})
+    for m in g.nodes:
+        if m.id in in_loop and m.kind == "stmt":
+            for sk in node_calls(m, "seek"):
+                if not sk.args:
+                    continue
+                for nm in sorted({x.id for x in ast.walk(sk.args[0]) if isinstance(x, ast.Name)}):
+                    defs = rdefs.reaching(m.id, nm)
+                    inside = [d for d, _ in defs if d in in_loop]
+                    outside = [d for d, _ in defs if d not in in_loop]
+                    if inside and outside:
+                        rep.fail(rid, f"{fi.key}:seek operand {nm}", f"'{nm}' in '{short(sk, 50)}' can still hold the value of an earlier iteration (it is set before the "
+                                      "member loop and only re-assigned on some paths inside it): a member without an explicit offset that follows one with an "
+                                      "offset is parsed at that other member's offset", fi.loc(sk))
+                    elif inside:
+                        rep.ok(rid, f"{fi.key}:seek operand {nm}", "computed in the same iteration", fi.loc(sk))
     read_nodes = {n.id for n, _ in reads}
     rep.check(lp.id not in g.reachable(lp.id, first_edge="loop", avoid=read_nodes, skip_exc=True), rid, f"{fi.key}:every-member",
               "every iteration of the member loop parses the member from the buffer",
@@ -240,6 +261,49 @@ def size_rule(repo: Repo, rep: Report, rid: str) -> None:
     rep.check(bool(rets) and "tell()" in norm(rets[-1].value), rid, f"{fi.key}:written", "returns the number of bytes written", "union writer return value changed", fi.loc())
 
 
+def union_encode_rule(repo: Repo, rep: Report, rid: str) -> None:
+    rep.rule(rid, "a union is dumped by encoding a member value through its type under the settings in force now: UnionMetaType._write never emits the "
+                  "stored raw buffer (_buf), which holds the bytes as they were encoded when the union was read or last rebuilt")
+    fi = repo.func("types/structure.py", "UnionMetaType._write")
+    from ..util import resolve_local
+
+    stream = fi.params[1]
+    raw = []
+    for c in walk_body(fi.node.body):
+        if isinstance(c, ast.Call) and call_name(c) == "write" and norm(c.func.value) == stream and c.args:
+            src = resolve_local(fi.node, c.args[0]) if isinstance(c.args[0], ast.Name) else c.args[0]
+            names = {x.id for x in ast.walk(c.args[0]) if isinstance(x, ast.Name)}
+            from_buf = any((isinstance(x, ast.Attribute) and x.attr == "_buf") or (isinstance(x, ast.Constant) and x.value == "_buf") for x in ast.walk(src))
+            # walrus-bound locals: (buf := getattr(data, "_buf", None))
+            for w in walk_body(fi.node.body):
+                if isinstance(w, ast.NamedExpr) and isinstance(w.target, ast.Name) and w.target.id in names and any(
+                        (isinstance(x, ast.Attribute) and x.attr == "_buf") or (isinstance(x, ast.Constant) and x.value == "_buf") for x in ast.walk(w.value)):
+                    from_buf = True
+            if from_buf:
+                raw.append(c)
+    members = [c for c in walk_body(fi.node.body) if isinstance(c, ast.Call) and call_name(c) == "_write" and isinstance(c.func, ast.Attribute) and c.func.value is not None
+               and norm(c.func.value) != stream]
+    rep.check(not raw and bool(members), rid, f"{fi.key}:encodes-members", "written through a member type's _write",
+              f"UnionMetaType._write emits the stored buffer ('{short(raw[0], 60) if raw else ''}'): after the byte order of the cstruct instance changed, an existing "
+              "union (and every structure embedding it) is still dumped in the old order while all scalar types follow the new one", fi.loc(raw[0]) if raw else fi.loc())
+
+
+def union_call_rule(repo: Repo, rep: Report, rid: str) -> None:
+    rep.rule(rid, "UnionMetaType.__call__ folded over 8 kinds of argument: a union parsed from bytes, a bytearray, a memoryview or a stream keeps the parsed "
+                  "bytes (no rebuild); values given by the user rebuild it from the first given member; a default-constructed union is proxified")
+    from ..folds import fold_union_call
+
+    fi = repo.func("types/structure.py", "UnionMetaType.__call__")
+    fold = fold_union_call(repo)
+    if fold is None:
+        rep.ok(rid, f"{fi.key}:fold", "not foldable with the evaluator's whitelist", fi.loc(), nontrivial=False)
+        return
+    bad = fold["bad"]
+    rep.check(not bad, rid, f"{fi.key}:fold", f"{fold['cases']} argument kinds behave as specified",
+              f"UnionMetaType.__call__ given {bad[0][0] if bad else ''}: {bad[0][1] if bad else ''}, expected {bad[0][2] if bad else ''}: a freshly parsed union that is "
+              "rebuilt from its first member loses the bytes that member does not own (unused bits of a bit-field unit, alignment padding)", fi.loc())
+
+
 def run(repo: Repo, rep: Report, tier: str) -> None:
     member_seek_rule(repo, rep, "C11.R1")
     rebuild_rule(repo, rep, "C11.R2")
@@ -261,4 +325,8 @@ def run(repo: Repo, rep: Report, tier: str) -> None:
     from .c04 import layout_fold_rule
 
     layout_fold_rule(repo, rep, "C11.R9", 3 if tier == "thorough" else 2, part="union")
+    union_encode_rule(repo, rep, "C11.R10")
+    union_call_rule(repo, rep, "C11.R11")
+
+
 
